@@ -43,7 +43,7 @@ var c19States = []string{"fresh", "greeted", "mail", "rcpt", "bdat"}
 func c19Run(ctx *core.Ctx) {
 	nFuzz, shortLen := 60000, 3
 	if ctx.Thorough() {
-		nFuzz, shortLen = 600000, 4
+		nFuzz, shortLen = 5000000, 5
 	}
 	ctx.Rule = fmt.Sprintf("limits {32,64,2000} x total line lengths {limit-2..limit+3, 3*limit} x position {first line, later line, MAIL line, inside an AUTH exchange, after DATA, after a non-LAST BDAT chunk, after a refused BDAT} x {one segment, two segments}; endless lines fed in 512-octet segments; all strings of length <=%d over {NUL,CR,LF,SP,'A','a',':','<',0xFF} as command lines in 5 session states; %d seeded binary lines / token soups; mixes of valid commands with 3..6 invalid ones. Oracles: ErrorLog tap (recovered panics), consumption counter of the transport, reply parser, backend log. Non-trivial: every case (hostile by construction); distinct by case.", shortLen, nFuzz)
 	ctx.Assumptions = []string{"lines of exactly limit+1 octets are not judged", "short lines that share a segment with an over-long one are not judged", "an unrecovered panic kills the child process and is reported by the parent as <id>:process-crash"}
